@@ -10,11 +10,15 @@ CLAIMED = {
  "C06": ("proof", "No-panic sweep: for every function reachable from AgainstSchema / NewSchemaValidator / (*SchemaValidator).Validate the generator emits a safety obligation for each nil dereference, index, slice bound, type assertion, division, map write, reflect call and explicit panic; callers are checked against callee preconditions. Proof-level for the obligations that discharge; the rest are listed as unproven in the evidence and not claimed. Termination is not proved (partial correctness).", "§11.4"),
  "C07": ("proof", "Same no-panic sweep over the functions reachable from Spec / NewSpecValidator / (*SpecValidator).Validate. Most of this code calls into go-openapi/spec, analysis and loads through coarse assumed contracts, so the discharged fraction is smaller; undischarged obligations are listed as unproven, not claimed.", "§11.4"),
  "C08": ("proof", "Statelessness of validators built without recycling as a postcondition: when Options.recycleValidators is false, Validate leaves every field of the receiver (and the elements of the child lists it owns) unchanged, and the effects discipline forbids writes to any other pre-existing object; results are fresh or borrowed. Functions under contract as for C04.", "§11.3"),
+ "C10": ("proof", "Only the Result-level part of the property: validity is exactly the absence of errors (warnings never make a result invalid: IsValid), and merging as warnings moves every message to the warnings and leaves the errors untouched (MergeAsWarnings). Determinism across runs / map iteration order and monotonicity between the continue-on-errors modes are relational properties of spec.go and are not decided.", "§11.6b"),
  "C11": ("proof", "Panic edges are explicit in the VCs: deferred calls run on every panic path, with their preconditions (no double redeem: Redeem* require a live object) and the on_panic postcondition `redeemed(self) == recycle` checked there. Covers AgainstSchema, SchemaValidator, schemaSliceValidator, formatValidator; panics can only originate in callees declared maypanic (format checker, ExpandSchema).", "§11.3"),
  "C12": ("proof", "Read-only inputs for schema validation as a frame condition: every heap write of the functions under contract is checked (write-ok) to hit a pool/fresh object, the receiver's subtree or a declared location, so the instance (maps, slices, boxed values) and a caller's schema are never written; scratch schemas come from the schema pool. Spec validation (document and parsed spec unchanged) is not covered.", "§11.3"),
  "C13": ("proof", "Each numeric helper against an exact spec function over mathematical reals/integers, bit-precise conversions; the regions where the code disagrees with exact arithmetic are carved out as known findings (D4, D17) and replayed on the real code on every run.", "§6 C13"),
  "C14": ("proof", "Each exported value helper against its textbook definition (rune counts, deep equality, zero values, regexp search via the assumed regexp contract, registry semantics uninterpreted).", "§6 C14"),
  "C15": ("proof", "Cache invariant `every entry maps a pattern to the expression compiled from that very pattern` as data-structure invariant with rely/guarantee on the atomic.Value (published maps immutable), mutex held around copy-on-write.", "§6 C15"),
+ "C17": ("proof", "The structural half: the one-shot entry point returns nil exactly when the underlying result has no errors (AgainstSchema), AsError likewise, a single-error result carries exactly that error (sErr), and errors are a duplicate-free set (AddErrors, under C20). Path composition (names of offending members) is string-valued and not decided: strings are uninterpreted in the encoding.", "§11.6b"),
+ "C18": ("proof", "The frame half of the property as a postcondition of post.ApplyDefaults, for all results and data: every member that an object had before still has the same value afterwards (defaults are only written where the member was absent at the moment of the write). Which members receive which default depends on the schemata bookkeeping of the validators (unframed in the discipline, anyOf/oneOf selection not under contract) and is not decided.", "§11.6b"),
+ "C19": ("proof", "The frame half of the property as postconditions of post.Prune / prune / pruneObject (recursive, modular): pruning never adds a member and never changes the value of a member that remains. Which members are removed depends on the schemata bookkeeping of the validators and is not decided; idempotence is not decided.", "§11.6b"),
  "C20": ("proof", "Result algebra: AddErrors/AddWarnings/Merge* against ordered-set spec functions (no duplicates, no loss, order, nil ignored, additive match counts, independence via array ownership), nil-tolerant queries.", "§6 C20"),
 }
 
@@ -23,11 +27,7 @@ NA = {
  "C02": "not applicable to this technique here: the property quantifies over the official Swagger 2.0 schema document (embedded JSON) and the whole SchemaValidator recursion; it reduces to C01 for one fixed schema, which is not decided (DESIGN §11.6).",
  "C03": "not decided: the rule set lives in functions that traverse go-openapi/spec and analysis data structures through library calls for which only coarse assumed contracts exist; exact rule semantics would need contracts on those libraries (DESIGN §11.6). The no-panic part of this code is claimed under C07.",
  "C09": "not decided: needs the (unspecified) traversal semantics of default_validator.go / example_validator.go over spec structures plus C01 for the nested schema validation (DESIGN §11.6).",
- "C10": "not decided: determinism over map iteration order and monotonicity between option modes are relational (two-run) properties of spec.go; the Result-level part (message-keyed sets, warnings kept apart in MergeAsWarnings) is proved under C20 (DESIGN §11.6).",
  "C16": "not decided: the Param/Header/items validators are not under contract yet (only the leaf validators they chain are, for pool discipline and panics); a partial claim would not cover the chain order and nesting the property is about (DESIGN §11.6).",
- "C17": "not decided: error paths are strings built with fmt.Sprintf and concatenation; strings are uninterpreted in the encoding (the String theory made the solvers return unknown), so path well-formedness cannot be expressed. The structural half (one-shot result nil iff no errors, no duplicates) is proved under C20's AsError / AddErrors contracts (DESIGN §11.6).",
- "C18": "not decided: needs the contents of the fieldSchemata bookkeeping (declared unframed: no frame is proved for it) and the anyOf/oneOf selection logic of schema_props.go, which is not under contract (DESIGN §11.6).",
- "C19": "not decided: same bookkeeping as C18 (fieldSchemata / itemSchemata are unframed in the discipline), plus recursion through nested data (DESIGN §11.6).",
 }
 
 def main():
